@@ -193,6 +193,13 @@ m("C02-i", "C02", "libwallet/src/slate.rs", "\t\tfinal_tx.kernels()[0].verify()?
 
 m("C12-h", "C12", "libwallet/src/internal/selection.rs", "\tlet keychain = wallet.keychain(keychain_mask)?;\n\n\tlet tx_entry = {", "\tlet keychain = wallet.keychain(keychain_mask)?;\n\tdebug!(\"locking outputs with context {:?}\", context);\n\n\tlet tx_entry = {", "C12.R9")
 
+m("C16-l", "C16", "libwallet/src/internal/scan.rs", "\t\t&keychain,\n\t\tclient,\n\t\tpmmr_range.0,\n\t\tSome(pmmr_range.1),", "\t\t&keychain,\n\t\tclient,\n\t\tpmmr_range.0 + 1,\n\t\tSome(pmmr_range.1),", "C16.R2")
+m("C16-m", "C16", "libwallet/src/internal/scan.rs", "\t\tlet matched_out = wallet_outputs.iter().find(|wo| wo.commit == deffo.commit);", "\t\tlet matched_out = wallet_outputs.iter().find(|wo| wo.output.value == deffo.value);", "C16.R3")
+
+# ---- from the fifth wave
+m("C04-j", "C04", "libwallet/src/internal/updater.rs", "\t\t\t&& out.height < height - 50\n\t\t\t&& out.is_coinbase\n", "\t\t\t&& out.height < height - 50\n", "C04.R7")
+m("C06-f", "C06", "impls/src/backends/lmdb.rs", "\t\t\t.map_err(|e| Error::StoredTx(format!(\"{}: {}\", uuid, e)))?,\n\t\t))", "\t\t\t.unwrap_or_default(),\n\t\t))", "C06.R4")
+
 
 def for_property(prop):
     return [x for x in M if x["property"] == prop]
